@@ -55,6 +55,21 @@ Fixpoint iter_any {A} (p : A -> res bool) (l : list A) : res bool :=
 
 Definition is_some {A} (o : option A) : bool := match o with Some _ => true | None => false end.
 
+(* "find the first child satisfying p, take its index, splice there" written by recursion:
+   replace that child / insert right after it; None when no child satisfies p *)
+Fixpoint replace_first {A} (p : A -> bool) (new : A) (l : list A) : option (list A) :=
+  match l with
+  | [] => None
+  | x :: r => if p x then Some (new :: r)
+              else match replace_first p new r with Some r' => Some (x :: r') | None => None end
+  end.
+Fixpoint insert_after_first {A} (p : A -> bool) (ins : list A) (l : list A) : option (list A) :=
+  match l with
+  | [] => None
+  | x :: r => if p x then Some (x :: ins ++ r)
+              else match insert_after_first p ins r with Some r' => Some (x :: r') | None => None end
+  end.
+
 Section Sat.
   Variable V : Type.
   Variable vcmp : V -> V -> res comparison.     (* <V as Ord>::cmp *)
@@ -221,6 +236,65 @@ Section Sat.
   Definition build_field (f : field) : res rtree :=
     rmap relations_from (mapM build_entry f).
 
+  (* ---------------- Relation::set_version(Some((vc, version))), relation without a parent ---- *)
+  (* This is the FIXED code of proposed_fixes/C12-set-version-strict-operators.patch: the
+     GreaterThan / LessThan arms write both characters.  Before the fix they wrote a single
+     R_ANGLE / L_ANGLE token ([constraint_tokens_before_fix]); the relation then printed as
+     `a (> 1)` and Relation::version() — hence satisfied_by — panicked on it (site 11). *)
+  Definition constraint_tokens (vc : vop) : list rtree :=
+    match vc with
+    | OpGe => [Tok R_ANGLE [62%N]; Tok EQUAL [61%N]]
+    | OpLe => [Tok L_ANGLE [60%N]; Tok EQUAL [61%N]]
+    | OpEq => [Tok EQUAL [61%N]]
+    | OpGt => [Tok R_ANGLE [62%N]; Tok R_ANGLE [62%N]]
+    | OpLt => [Tok L_ANGLE [60%N]; Tok L_ANGLE [60%N]]
+    end.
+  Definition constraint_tokens_before_fix (vc : vop) : list rtree :=
+    match vc with
+    | OpGt => [Tok R_ANGLE [62%N]]
+    | OpLt => [Tok L_ANGLE [60%N]]
+    | other => constraint_tokens other
+    end.
+  Definition version_node (ctoks : list rtree) (v : V) : rtree :=
+    Node VERSION [Tok L_PARENS [40%N]; Node CONSTRAINT ctoks; Tok WHITESPACE [32%N];
+                  Tok IDENT (vshow v); Tok R_PARENS [41%N]].
+  (* current_version present: splice_children(i..i+1, [new]); otherwise the green node gets
+     [" ", new] spliced in right after the name token (at 0 if there is none) and becomes the
+     relation's own new root *)
+  Definition set_version_some (ctoks : vop -> list rtree) (r : rtree) (vc : vop) (v : V) : rtree :=
+    match r with
+    | Tok _ _ => r
+    | Node k cs =>
+      let new := version_node (ctoks vc) v in
+      match replace_first (is_node_of VERSION) new cs with
+      | Some cs' => Node k cs'
+      | None =>
+        match insert_after_first (is_tok_of IDENT) [Tok WHITESPACE [32%N]; new] cs with
+        | Some cs' => Node k cs'
+        | None => Node k (Tok WHITESPACE [32%N] :: new :: cs)
+        end
+      end
+    end.
+
+  (* the harness builds every versioned alternative through set_version: even positions from
+     Relation::simple(name) (insert path), odd positions from Relation::new(name, (=, v))
+     (replace path) *)
+  Definition sv_relation (ctoks : vop -> list rtree) (replace : bool) (r : rel) : res rtree :=
+    match r_ver r with
+    | None => relation_new (r_name r) None
+    | Some (vc, v) =>
+        rmap (fun t => set_version_some ctoks t vc v)
+             (relation_new (r_name r) (if replace then Some (OpEq, v) else None))
+    end.
+  Fixpoint sv_relations (ctoks : vop -> list rtree) (odd : bool) (e : list rel) : res (list rtree) :=
+    match e with
+    | [] => Ok []
+    | r :: e' => bind (sv_relation ctoks odd r) (fun t =>
+                 bind (sv_relations ctoks (negb odd) e') (fun ts => Ok (t :: ts)))
+    end.
+  Definition sv_field (ctoks : vop -> list rtree) (f : field) : res rtree :=
+    rmap relations_from (mapM (fun e => rmap entry_from (sv_relations ctoks false e)) f).
+
   (* ---------------- the specification (Policy §7.1), for a total comparison [cmp] -------- *)
   Definition op_holds (o : vop) (c : comparison) : bool :=
     match o, c with
@@ -306,4 +380,6 @@ Definition deb_lossy_rel_sat := lossy_relation_satisfied_by version ver_cmp.
 Definition deb_ll_sat := ll_relations_satisfied_by version ver_cmp parse_version.
 Definition deb_ll_entry_sat := ll_entry_satisfied_by version ver_cmp parse_version.
 Definition deb_build_field := build_field version show_version.
+Definition deb_sv_field := sv_field version show_version (@constraint_tokens).
+Definition deb_sv_field_before_fix := sv_field version show_version (@constraint_tokens_before_fix).
 Definition deb_spec := @satisfied_spec version vcmp.
